@@ -17,7 +17,7 @@ package parser
 //@ spec isNotation(c *ast.Comment) bool = re2Search(reNotationSrc(), c.Text)
 //@ spec noteKey(c *ast.Comment) string = submatch(reNotationSrc(), c.Text, 1)
 //@ spec noteArgs(c *ast.Comment) string = submatch(reNotationSrc(), c.Text, 2)
-//@ spec noteArg(c *ast.Comment, i int) string = fieldAt(noteArgs(c), i)
+//@ spec noteArg(c *ast.Comment, i int) string = fieldsAt(noteArgs(c), i)
 //@ spec noteNArgs(c *ast.Comment) int = nfields(noteArgs(c))
 //@ spec keyIs(c *ast.Comment, valid map[string]struct{}, k string) bool = has(valid, noteKey(c)) && noteKey(c) == k
 //@ spec wfNotes(ns []*ast.Comment) bool = forall(i, 0, len(ns), ns[i] != nil && isNotation(ns[i]))
